@@ -394,12 +394,7 @@ fn main() {
             Guarded::Panic(m) => format!("{{\"panic\":{}}}", json_str(m)),
             Guarded::Hang => "{\"hang\":true}".to_string(),
         };
-        // known-finding class, from the INPUT alone: Rib, no point, some other array non-empty
-        let kf = if c.alg == 1 && c.npoints == 0 && (!c.p0.is_empty() || c.weights.len() != 0) {
-            ",\"kf\":\"C20-rib-empty-points\""
-        } else {
-            ""
-        };
+        let kf = ""; // no open known finding (Rib's empty-points defect was repaired by f977178)
         let json = format!(
             "{{\"alg\":{},\"partition\":{},\"weights\":{},\"points_len\":{},\"adjacency_len\":{},\"part_count\":{},\"order\":{},\"impl\":{},\"partition_after\":{}{}}}",
             json_str(NAMES[c.alg]),
